@@ -66,7 +66,7 @@ def _gen(rng, n_ops):
     return ops
 
 
-def scripted():
+def scripted(tier="quick"):
     # a trusted symlink re-pointed to a file on the other device, then a forced refresh (seeded change C19-m1)
     s1 = [{"ev": "create", "f": 1, "d": "a"}, {"ev": "create", "f": 2, "d": "b"}, {"ev": "sleep", "ms": 3},
           {"ev": "link", "f": 3, "target": 1}, {"ev": "add", "f": 3}, {"ev": "sleep", "ms": 3}, {"ev": "touch", "f": 2},
@@ -82,7 +82,10 @@ def scripted():
     s3 = [{"ev": "create", "f": 1, "d": "a"}, {"ev": "add", "f": 1}, {"ev": "sleep", "ms": 3}, {"ev": "create", "f": 2, "d": "a"},
           {"ev": "futuremtime", "f": 2}, {"ev": "observe", "f": 2}, {"ev": "get_unlocked"}, {"ev": "oldmtime", "f": 1},
           {"ev": "observe", "f": 1}, {"ev": "get", "off": 0}]
-    return [s1, s2, s3]
+    # concurrent callers forcing refreshes: the base time never decreases for any of them
+    s4 = [{"ev": "create", "f": 1, "d": "a"}, {"ev": "add", "f": 1}, {"ev": "observe", "f": 1},
+          {"ev": "mt", "threads": 40, "iters": 10 ** 7, "ms": 4000 if tier == "quick" else 30000}, {"ev": "get_unlocked"}, {"ev": "observe", "f": 1}]
+    return [s1, s2, s3, s4]
 
 
 def run_nfs(res, work, tier, seed):
@@ -108,7 +111,7 @@ def run_nfs(res, work, tier, seed):
     rng = random.Random(seed * 7919 + 19)
     n_runs, n_ops = (40, 50) if tier == "quick" else (400, 80)
     runs = []
-    for i, ops in enumerate(scripted()):
+    for i, ops in enumerate(scripted(tier)):
         runs.append({"run": i + 1, "cfg": {"dir_a": work}, "ops": ops})
     for i in range(n_runs):
         runs.append({"run": len(runs) + 1, "cfg": {"dir_a": work}, "ops": _gen(rng, n_ops)})
@@ -137,6 +140,8 @@ def run_nfs(res, work, tier, seed):
                 changes, untrusted, prev, tr = 0, False, 0, set()
             elif e["ev"] == "end":
                 nontrivial += 1 if (changes >= 2 and untrusted) else 0
+            elif e["ev"] == "mt_obs":
+                continue
             else:
                 if e.get("base", 0) != prev:
                     changes += 1
@@ -152,7 +157,7 @@ def run_nfs(res, work, tier, seed):
                 "was observed; " % len(runs) + "call sequences of the real nfs_voucher module, each in its own process, over files on two real devices "
                 "(ext work directory and tmpfs /dev/shm) created milliseconds apart, with touches, old modification times, symlinks "
                 "re-pointed across devices, trust established early / late / on either device, explicit `now` values on both sides of "
-                "the refresh threshold; %d random sequences of %d calls + 3 scripted ones" % (n_runs, n_ops)}
+                "the refresh threshold; %d random sequences of %d calls + 4 scripted ones (one with 6 concurrent callers forcing refreshes)" % (n_runs, n_ops)}
     res.data["samples"]["C19"] = [runs[0]["ops"], runs[-1]["ops"][:15]]
     os.remove(trace)
 
